@@ -183,40 +183,45 @@ Proof.
     match goal with H : _ = w_trace w1 |- _ => rewrite <- H end. apply last_temp_snoc_create.
 Qed.
 
-Lemma file_write_spec h n cs w :
-  exists f w' x, file_write (Some (h, n)) cs w = ((0, err_of f), w') /\ adv (map (Write h) cs) w w' x /\ same_rest w w'
+Lemma file_write_spec (fo : nat * string) cs w :
+  let h := fst fo in
+  exists f w' x, file_write (Some fo) cs w = ((0, err_of f), w') /\ adv (map (Write h) cs) w w' x /\ same_rest w w'
                  /\ (if f then exists c, x = Some (Write h c) else x = None)
                  /\ last_temp h (w_trace w') = last_temp h (w_trace w).
 Proof.
-  unfold file_write. destruct (write_chunks_adv h cs w) as (f & w' & x & E & R). rewrite E. exists f, w', x. auto.
+  destruct fo as [h n]. cbn [fst]. unfold file_write. destruct (write_chunks_adv h cs w) as (f & w' & x & E & R). rewrite E. exists f, w', x. auto.
 Qed.
 
-Lemma file_close_spec h n w : w_fopen w = true ->
-  exists e w', file_close (Some (h, n)) w = (e, w') /\ adv [Close h] w w' None /\ w_fopen w' = false
+Lemma file_close_spec (fo : nat * string) w : w_fopen w = true ->
+  exists e w', file_close (Some fo) w = (e, w') /\ adv [Close (fst fo)] w w' None /\ w_fopen w' = false
                /\ w_rnds w' = w_rnds w /\ same_cfg w w'.
 Proof.
-  intros O. unfold file_close. rewrite O. destruct (sys_adv (Close h) w) as (f & w1 & E & A & S). rewrite E.
+  destruct fo as [h n]. cbn [fst]. intros O. unfold file_close. rewrite O. destruct (sys_adv (Close h) w) as (f & w1 & E & A & S). rewrite E.
   exists None, (with_fopen false w1). split; [reflexivity|].
   assert (f = false) as ->.
   { destruct A as (A & _). cbn [frun0] in A. destruct f; [|reflexivity]. destruct (w_left w) as [[|k]|]; cbn in A; inversion A. }
   split; [exact A|]. split; [reflexivity|]. split; [exact (proj1 S)|exact (same_rest_cfg _ _ S)].
 Qed.
 
-Lemma file_close_closed h n w : w_fopen w = false -> file_close (Some (h, n)) w = (eio, w).
-Proof. intros O. unfold file_close. now rewrite O. Qed.
+Lemma file_close_closed (fo : nat * string) w : w_fopen w = false -> file_close (Some fo) w = (eio, w).
+Proof. destruct fo. intros O. unfold file_close. now rewrite O. Qed.
 
-Lemma os_remove_spec n w :
-  exists f w', os_remove (w_dir w, n) w = (err_of f, w') /\ adv [Unlink n] w w' (if f then Some (Unlink n) else None)
+Lemma os_remove_spec (p : string * string) w : fst p = w_dir w ->
+  let n := snd p in
+  exists f w', os_remove p w = (err_of f, w') /\ adv [Unlink n] w w' (if f then Some (Unlink n) else None)
                /\ same_rest w w'.
 Proof.
+  destruct p as [d n]. cbn [fst snd]. intros ->.
   unfold os_remove, on_name. cbn [fst snd]. rewrite String.eqb_refl.
   destruct (sys_adv (Unlink n) w) as (f & w1 & E & A & S). rewrite E. eauto.
 Qed.
 
-Lemma os_rename_spec a b w :
-  exists f w', os_rename (w_dir w, a) (w_dir w, b) w = (err_of f, w')
+Lemma os_rename_spec (pa pb : string * string) w : fst pa = w_dir w -> fst pb = w_dir w ->
+  let a := snd pa in let b := snd pb in
+  exists f w', os_rename pa pb w = (err_of f, w')
                /\ adv [Rename a b] w w' (if f then Some (Rename a b) else None) /\ same_rest w w'.
 Proof.
+  destruct pa as [da a], pb as [db b]. cbn [fst snd]. intros -> ->.
   unfold os_rename. cbn [fst snd]. rewrite String.eqb_refl. cbn [andb].
   destruct (sys_adv (Rename a b) w) as (f & w1 & E & A & S). rewrite E. eauto.
 Qed.
@@ -264,16 +269,19 @@ Proof.
     split; [reflexivity|]. split; [exact (adv_app_fail [_] _ _ _ _ A1)|].
     split; [split; [eexists; reflexivity|split; [cbn [recover]; now rewrite app_nil_r|auto]]|]. split; assumption.
   - specialize (O1 eq_refl). specialize (L1 eq_refl).
-    Show. destruct (file_write_spec h (o_tmp o) cs wa) as (f2 & wb & x2 & E2 & A2 & S2 & X2 & L2). rewrite E2.
+    match goal with |- context [file_write (Some ?fo) cs wa] =>
+      destruct (file_write_spec fo cs wa) as (f2 & wb & x2 & E2 & A2 & S2 & X2 & L2); cbn [fst] in A2, X2, L2; rewrite E2 end.
     pose proof (same_rest_cfg _ _ S2) as C2. destruct S2 as (S2r & S2o & _).
     destruct f2; cbv beta iota zeta delta [err_of is_nil negb eio].
     + (* a write fails: Close, Remove, exit *)
       destruct X2 as (c & ->).
       assert (Ob : w_fopen wb = true) by congruence.
-      destruct (file_close_spec h (o_tmp o) wb Ob) as (e3 & wc & E3 & A3 & O3 & R3 & C3). rewrite E3.
+      match goal with |- context [file_close (Some ?fo) wb] =>
+        destruct (file_close_spec fo wb Ob) as (e3 & wc & E3 & A3 & O3 & R3 & C3); cbn [fst] in A3; rewrite E3 end.
       pose proof (adv_failed_left _ _ _ _ A2) as K2.
-      unfold file_name_of. cbn [snd]. replace (w_dir wc) with (w_dir wc) by reflexivity.
-      destruct (os_remove_spec (o_tmp o) wc) as (f4 & wd & E4 & A4 & S4). rewrite E4.
+      unfold file_name_of. cbn [snd].
+      match goal with |- context [os_remove ?p wc] =>
+        destruct (os_remove_spec p wc eq_refl) as (f4 & wd & E4 & A4 & S4); cbn [snd] in A4; rewrite E4 end.
       eexists _, wd, wb, (Some (Write h c)). split; [reflexivity|].
       split; [exact (adv_app [_] _ _ _ _ _ A1 (adv_app_fail _ _ _ _ _ A2))|].
       assert (F4 : f4 = false).
@@ -286,12 +294,13 @@ Proof.
       * split; [destruct S4 as (S4 & _); congruence|].
         exact (same_cfg_trans _ _ _ (same_cfg_trans _ _ _ (same_cfg_trans _ _ _ C1 C2) C3) (same_rest_cfg _ _ S4)).
     + subst x2. assert (Ob : w_fopen wb = true) by congruence.
-      destruct (file_close_spec h (o_tmp o) wb Ob) as (e3 & wc & E3 & A3 & O3 & R3 & C3). rewrite E3.
+      match goal with |- context [file_close (Some ?fo) wb] =>
+        destruct (file_close_spec fo wb Ob) as (e3 & wc & E3 & A3 & O3 & R3 & C3); cbn [fst] in A3; rewrite E3 end.
       unfold file_name_of, path_join. cbn [snd].
       assert (Dc : w_dir wc = w_dir w).
       { destruct C1 as (_&_&_&_&d1&_). destruct C2 as (_&_&_&_&d2&_). destruct C3 as (_&_&_&_&d3&_). congruence. }
-      rewrite <- Dc.
-      destruct (os_rename_spec (o_tmp o) fname wc) as (f4 & wd & E4 & A4 & S4). rewrite E4.
+      match goal with |- context [os_rename ?pa ?pb wc] =>
+        destruct (os_rename_spec pa pb wc eq_refl (eq_sym Dc)) as (f4 & wd & E4 & A4 & S4); cbn [snd] in A4; rewrite E4 end.
       pose proof (same_rest_cfg _ _ S4) as C4. destruct S4 as (S4r & S4o & _).
       assert (AA : adv (CreateTemp h (o_tmp o) :: map (Write h) cs ++ [Close h; Rename (o_tmp o) fname]) w wd
                        (if f4 then Some (Rename (o_tmp o) fname) else None)).
@@ -305,9 +314,540 @@ Proof.
         split; [congruence|]. exact (same_cfg_trans _ _ _ (same_cfg_trans _ _ _ (same_cfg_trans _ _ _ C1 C2) C3) C4).
       * (* all calls succeeded; the deferred Close finds the file closed *)
         assert (Od : w_fopen wd = false) by congruence.
-        rewrite (file_close_closed h (o_tmp o) wd Od).
+        match goal with |- context [file_close (Some ?fo) wd] => rewrite (file_close_closed fo wd Od) end.
         eexists _, wd, wd, None. split; [reflexivity|]. split; [exact AA|]. split; [auto|].
         split; [congruence|]. exact (same_cfg_trans _ _ _ (same_cfg_trans _ _ _ (same_cfg_trans _ _ _ C1 C2) C3) C4).
 Qed.
 
+(* ---- the write loop of main: the source map in the order Go iterates it *)
+Fixpoint outs_of (srcs : list (string * list bytes)) (rnds : list string) : list output :=
+  match srcs with
+  | [] => []
+  | (n, cs) :: r => out_of n (hd "" rnds) cs :: outs_of r (tl rnds)
+  end.
+
+Variable re_match : string -> string -> bool.
+
+Lemma loop1_spec : forall xs srcMap names (w : pworld),
+  exists w1 x,
+    adv (write_ops (w_fd w) (outs_of xs (w_rnds w))) w w1 x
+    /\ match x with
+       | None => main_loop1 re_match srcMap xs names w = main_after1 re_match srcMap (names ++ map fst xs) w1
+                 /\ same_cfg w w1
+       | Some y => exists r w', main_loop1 re_match srcMap xs names w = (r, w') /\ fatal r
+                                /\ w_trace w' = w_trace w1 ++ recover y (w_trace w1) /\ (Run w1 -> Run w')
+       end.
+Proof.
+  induction xs as [|[n cs] xs IH]; intros srcMap names w.
+  - exists w, None. split; [apply adv_nil|]. cbn [main_loop1 map]. rewrite app_nil_r. split; [reflexivity|apply same_cfg_refl].
+  - cbn [outs_of write_ops flat_map main_loop1]. unfold common_flags.
+    destruct (notedownSrc_spec n cs w) as (r & w' & w1 & x & E & A & M & R & C). rewrite E.
+    destruct x as [y|].
+    + destruct M as ((fmt & ->) & T & RR). exists w1, (Some y). split; [exact (adv_app_fail _ _ _ _ _ A)|].
+      eexists _, w'. split; [reflexivity|]. split; [eexists; reflexivity|auto].
+    + destruct M as (-> & -> & O).
+      destruct (IH srcMap (names ++ [n]) w1) as (w2 & x & A2 & M2).
+      assert (F : w_fd w1 = w_fd w) by (destruct C as (_&_&_&_&_&f&_); exact f).
+      rewrite F, R in A2. exists w2, x. split; [exact (adv_app _ _ _ _ _ _ A A2)|].
+      destruct x as [y|].
+      * exact M2.
+      * destruct M2 as (M2 & C2). split; [|exact (same_cfg_trans _ _ _ C C2)].
+        rewrite M2. cbn [map fst]. now rewrite <- app_assoc.
+Qed.
+
+(* ---- Clean *)
+Definition aio_pat : string := "^// Code generated by.*-type=\*.*DO NOT EDIT.".
+Definition gen_pat (cmd : string) : string := "^// Code generated by ""shoot " ++ cmd ++ " .*DO NOT EDIT.".
+(* the two regexps are what Model/Fs.v transcribes by hand (compared with the real ones by the L1 probe of C17) *)
+Hypothesis re_aio : forall l, re_match aio_pat l = is_aio l.
+Hypothesis re_gen : forall cmd l, re_match (gen_pat cmd) l = is_gen cmd l.
+
+Lemma sys_fs o w f w' : sys o w = (f, w') -> w_fs w' = if f then w_fs w else step (w_fs w) o.
+Proof.
+  unfold sys. destruct (tick o (w_left w)) as [[|] k]; intros E; inversion E; reflexivity.
+Qed.
+
+Lemma first_line_spec (p : string * string) w : fst p = w_dir w ->
+  let n := snd p in
+  exists (f : bool) w', first_line_of p w
+               = ((if f then "" else match visible (w_fs w) n with Some b => first_line b | None => "" end, err_of f), w')
+               /\ adv [ReadFirstLine n] w w' (if f then Some (ReadFirstLine n) else None) /\ same_rest w w'
+               /\ w_fs w' = w_fs w.
+Proof.
+  destruct p as [d n]. cbn [fst snd]. intros ->. unfold first_line_of, on_name. cbn [fst snd]. rewrite String.eqb_refl.
+  destruct (sys_adv (ReadFirstLine n) w) as (f & w1 & E & A & S). rewrite E.
+  exists f, w1. split; [destruct f; reflexivity|]. split; [exact A|]. split; [exact S|].
+  rewrite (sys_fs _ _ _ _ E). destruct f; [reflexivity|]. unfold step. now destruct (negb (ok (w_fs w) (ReadFirstLine n))).
+Qed.
+
+Lemma isAllInOneFile_spec (p : string * string) w : fst p = w_dir w ->
+  let n := snd p in
+  exists (f : bool) w', isAllInOneFile re_match p w
+               = (Returned (if f then false else match visible (w_fs w) n with Some b => is_aio (first_line b) | None => is_aio "" end,
+                            err_of f), w')
+               /\ adv [ReadFirstLine n] w w' (if f then Some (ReadFirstLine n) else None) /\ same_rest w w'
+               /\ w_fs w' = w_fs w.
+Proof.
+  intros D n. unfold isAllInOneFile. destruct (first_line_spec p w D) as (f & w' & E & R). rewrite E.
+  exists f, w'. split; [|exact R].
+  destruct f; cbv beta iota zeta delta [err_of is_nil negb eio re_compile]; [reflexivity|].
+  fold aio_pat. rewrite re_aio. fold n. destruct (visible (w_fs w) n); reflexivity.
+Qed.
+
+Lemma isGeneratedBy_spec (p : string * string) cmd w : fst p = w_dir w ->
+  let n := snd p in
+  exists (f : bool) w', isGeneratedBy re_match p cmd w
+               = (Returned (if f then false else match visible (w_fs w) n with Some b => is_gen cmd (first_line b) | None => is_gen cmd "" end,
+                            err_of f), w')
+               /\ adv [ReadFirstLine n] w w' (if f then Some (ReadFirstLine n) else None) /\ same_rest w w'
+               /\ w_fs w' = w_fs w.
+Proof.
+  intros D n. unfold isGeneratedBy. destruct (first_line_spec p w D) as (f & w' & E & R). rewrite E.
+  exists f, w'. split; [|exact R].
+  destruct f; cbv beta iota zeta delta [err_of is_nil negb eio re_compile quote_meta]; [reflexivity|].
+  replace ("^// Code generated by """ ++ "shoot" ++ " " ++ cmd ++ " .*DO NOT EDIT.")%string with (gen_pat cmd) by reflexivity.
+  rewrite re_gen. fold n. destruct (visible (w_fs w) n); reflexivity.
+Qed.
+
+Lemma visible_unlink_other s n m : m <> n -> visible (step s (Unlink n)) m = visible s m.
+Proof.
+  intros N. unfold step. destruct (negb (ok s (Unlink n))); [reflexivity|]. unfold visible. cbn [dir data].
+  now rewrite lookup_remove_neq.
+Qed.
+
+(* the configuration of the model, read off the generator; c_fixed / c_supfix: the current code *)
+Definition cfg_of (w : pworld) (clean dd : bool) (tags : bytes -> list string) (cov : list string) : cfg :=
+  {| c_cmd := w_cmd w; c_clean := clean; c_dirdot := dd; c_fixed := true; c_supfix := false; c_tags := tags;
+     c_covered := cov; c_genfile := w_genfile w; c_fd := w_fd w |}.
+
+Section CleanLoop.
+Variables (c : cfg) (s : fs).
+Hypothesis cF : c_fixed c = true.
+Hypothesis cS : c_supfix c = false.
+
+Lemma clean_loop_spec : forall L (w : pworld),
+  c_cmd c = w_cmd w -> c_genfile c = w_genfile w ->
+  NoDup L -> (forall n, In n L -> visible (w_fs w) n = visible s n /\ visible s n <> None) ->
+  exists e w1 x, Clean_loop1 re_match (w_genfile w) (map (pair (w_dir w)) L) w = (Returned e, w1)
+                 /\ adv (flat_map (clean_one c s) L) w w1 x /\ (e = None <-> x = None) /\ same_cfg w w1.
+Proof.
+  induction L as [|n L IH]; intros w Hc Hg ND V.
+  - exists None, w, None. cbn. split; [reflexivity|]. split; [apply adv_nil|]. split; [tauto|apply same_cfg_refl].
+  - cbn [map Clean_loop1 flat_map]. unfold path_base. cbn [snd].
+    inversion ND as [|? ? Nin ND']; subst.
+    assert (V' : forall w', w_fs w' = w_fs w -> forall m, In m L -> visible (w_fs w') m = visible s m /\ visible s m <> None).
+    { intros w' F m I. rewrite F. apply V. now right. }
+    destruct (V n (or_introl eq_refl)) as (Vn & Vs).
+    unfold clean_one at 1. unfold is_own. rewrite cF, orb_true_r, Hg. cbn [andb].
+    destruct (String.eqb n (w_genfile w)) eqn:Own.
+    + (* the file just generated: skipped *)
+      cbn [app]. apply (IH w Hc Hg ND'). intros m I. apply V. now right.
+    + destruct (visible s n) as [b|] eqn:Vb; [|congruence].
+      destruct (isAllInOneFile_spec (w_dir w, n) w eq_refl) as (f1 & w1 & E1 & A1 & S1 & F1). cbn [snd] in E1, A1.
+      rewrite E1, Vn. pose proof (same_rest_cfg _ _ S1) as C1.
+      destruct f1; cbv beta iota zeta delta [err_of is_nil negb eio].
+      * (* the first read fails *)
+        exists (Some 5), w1, (Some (ReadFirstLine n)). split; [reflexivity|].
+        split; [destruct (is_aio (first_line b)); [|destruct (gen_sel c b)]; exact (adv_app_fail [_] _ _ _ _ A1)|].
+        split; [split; discriminate|exact C1].
+      * destruct (is_aio (first_line b)) eqn:Aio.
+        -- (* an all-in-one file: left alone *)
+           destruct (IH w1) as (e & w2 & x & E2 & A2 & X2 & C2); try assumption.
+           { destruct C1 as (cc & _). congruence. } { destruct C1 as (_&_&_&g&_). congruence. } { apply V'. exact F1. }
+           assert (G : w_genfile w1 = w_genfile w) by (destruct C1 as (_&_&_&g&_); exact g).
+           assert (D : w_dir w1 = w_dir w) by (destruct C1 as (_&_&_&_&d&_); exact d).
+           rewrite G, D in E2. exists e, w2, x. split; [exact E2|]. split; [exact (adv_app [_] _ _ _ _ _ A1 A2)|].
+           split; [exact X2|exact (same_cfg_trans _ _ _ C1 C2)].
+        -- assert (D1 : w_dir w = w_dir w1) by (destruct C1 as (_&_&_&_&d&_); symmetry; exact d).
+           assert (Cm1 : w_cmd w1 = w_cmd w) by (destruct C1 as (cc & _); exact cc).
+           destruct (isGeneratedBy_spec (w_dir w, n) (w_cmd w1) w1 D1) as (f2 & w2 & E2 & A2 & S2 & F2). cbn [snd] in E2, A2.
+           rewrite E2, F1, Vn. pose proof (same_rest_cfg _ _ S2) as C2.
+           unfold gen_sel. rewrite cS. cbn [negb orb]. rewrite andb_true_r, Hc, <- Cm1.
+           destruct f2; cbv beta iota zeta delta [err_of is_nil negb eio].
+           ++ exists (Some 5), w2, (Some (ReadFirstLine n)). split; [reflexivity|].
+              split; [destruct (is_gen (w_cmd w1) (first_line b));
+                      exact (adv_app [_] _ _ _ _ _ A1 (adv_app_fail [_] _ _ _ _ A2))|].
+              split; [split; discriminate|exact (same_cfg_trans _ _ _ C1 C2)].
+           ++ destruct (is_gen (w_cmd w1) (first_line b)) eqn:Gen.
+              ** (* selected: removed *)
+                 assert (D2 : w_dir w = w_dir w2).
+                 { destruct C2 as (_&_&_&_&d&_). congruence. }
+                 destruct (os_remove_spec (w_dir w, n) w2 D2) as (f3 & w3 & E3 & A3 & S3). cbn [snd] in E3, A3.
+                 rewrite E3. pose proof (same_rest_cfg _ _ S3) as C3.
+                 destruct f3; cbv beta iota zeta delta [err_of is_nil negb eio].
+                 --- exists (Some 5), w3, (Some (Unlink n)). split; [reflexivity|].
+                     split; [exact (adv_app [_] _ _ _ _ _ A1 (adv_app [_] _ _ _ _ _ A2 (adv_app_fail [_] _ _ _ _ A3)))|].
+                     split; [split; discriminate|exact (same_cfg_trans _ _ _ (same_cfg_trans _ _ _ C1 C2) C3)].
+                 --- pose proof (same_cfg_trans _ _ _ (same_cfg_trans _ _ _ C1 C2) C3) as C13.
+                     destruct (IH w3) as (e & w4 & x & E4 & A4 & X4 & C4); try assumption.
+                     { destruct C13 as (cc & _). congruence. } { destruct C13 as (_&_&_&g&_). congruence. }
+                     { intros m I. split; [|apply V; now right].
+                       assert (F3 : w_fs w3 = step (w_fs w2) (Unlink n)).
+                       { unfold os_remove, on_name in E3. cbn [fst snd] in E3. rewrite <- D2, String.eqb_refl in E3.
+                         destruct (sys (Unlink n) w2) as [f w3'] eqn:Es. pose proof (sys_fs _ _ _ _ Es) as Fs.
+                         destruct f; inversion E3; subst; exact Fs. }
+                       rewrite F3, visible_unlink_other by (intros ->; contradiction). rewrite F2, F1. apply V. now right. }
+                     assert (G : w_genfile w3 = w_genfile w) by (destruct C13 as (_&_&_&g&_); exact g).
+                     assert (D : w_dir w3 = w_dir w) by (destruct C13 as (_&_&_&_&d&_); exact d).
+                     rewrite G, D in E4. exists e, w4, x.
+                     split; [|split; [exact (adv_app [_] _ _ _ _ _ A1 (adv_app [_] _ _ _ _ _ A2 (adv_app [_] _ _ _ _ _ A3 A4)))|
+                                      split; [exact X4|exact (same_cfg_trans _ _ _ C13 C4)]]].
+                     exact E4.
+              ** (* another sub-command's file, or hand-written: left alone *)
+                 pose proof (same_cfg_trans _ _ _ C1 C2) as C12.
+                 destruct (IH w2) as (e & w3 & x & E3 & A3 & X3 & C3); try assumption.
+                 { destruct C12 as (cc & _). congruence. } { destruct C12 as (_&_&_&g&_). congruence. }
+                 { apply V'. congruence. }
+                 assert (G : w_genfile w2 = w_genfile w) by (destruct C12 as (_&_&_&g&_); exact g).
+                 assert (D : w_dir w2 = w_dir w) by (destruct C12 as (_&_&_&_&d&_); exact d).
+                 rewrite G, D in E3. exists e, w3, x. split; [exact E3|].
+                 split; [exact (adv_app [_] _ _ _ _ _ A1 (adv_app [_] _ _ _ _ _ A2 A3))|].
+                 split; [exact X3|exact (same_cfg_trans _ _ _ C12 C3)].
+Qed.
+End CleanLoop.
+
+Lemma frun0_ok_trace ops : forall k d d' k', frun0 ops k d = (d', k', None) -> d' = d ++ ops.
+Proof.
+  induction ops as [|o r IH]; intros k d d' k'; cbn [frun0].
+  - intros E. inversion E. now rewrite app_nil_r.
+  - destruct (tick o k) as [[|] k1]; [discriminate|]. intros E. rewrite (IH _ _ _ _ E), <- app_assoc. reflexivity.
+Qed.
+Lemma frun0_fail_in ops : forall k d d' k' y, frun0 ops k d = (d', k', Some y) -> In y ops.
+Proof.
+  induction ops as [|o r IH]; intros k d d' k' y; cbn [frun0]; [discriminate|].
+  destruct (tick o k) as [[|] k1]; intros E; [inversion E; now left|right; exact (IH _ _ _ _ _ E)].
+Qed.
+
+Lemma pattern_is_the_models cmd :
+  String.eqb ("*." ++ "shoot" ++ cmd ++ "*.go") ("*" ++ glob_mid cmd ++ "*.go") = true.
+Proof. unfold glob_mid. rewrite sapp_assoc. apply String.eqb_refl. Qed.
+
+Lemma Clean_spec : forall (w : pworld) dd tags cov, keys_nodup (dir (w_fs w)) ->
+  let c := cfg_of w (negb (w_sep w) && negb (w_aio w =? "")) dd tags cov in
+  exists e w1 x, Clean re_match w = (Returned e, w1) /\ adv (clean_ops c (w_fs w)) w w1 x
+                 /\ (e = None <-> x = None) /\ same_cfg w w1.
+Proof.
+  intros w dd tags cov K c. unfold Clean, clean_ops. cbn [c cfg_of c_clean].
+  destruct (w_sep w); cbn [negb andb].
+  { exists None, w, None. split; [reflexivity|]. split; [apply adv_nil|]. split; [tauto|apply same_cfg_refl]. }
+  destruct (w_aio w =? ""); cbn [negb].
+  { exists None, w, None. split; [reflexivity|]. split; [apply adv_nil|]. split; [tauto|apply same_cfg_refl]. }
+  unfold glob_paths, path_join. cbn [fst snd]. rewrite pattern_is_the_models.
+  cbv beta iota zeta delta [is_nil negb].
+  change (sort_names (filter (glob (w_cmd w)) (listing (w_fs w)))) with (matches c (w_fs w)).
+  apply (clean_loop_spec c (w_fs w) eq_refl eq_refl (matches c (w_fs w)) w eq_refl eq_refl (matches_nodup c _ K)).
+  intros n I. split; [reflexivity|]. apply matches_In in I as (_ & L). unfold visible. now destruct (lookup n (dir (w_fs w))).
+Qed.
+
+(* the success message: one line per file name *)
+Definition add_msgs (l : list string) (w : pworld) : pworld := fold_left (fun w n => log_name n w) l w.
+Lemma add_msgs_keeps l : forall w,
+  w_fs (add_msgs l w) = w_fs w /\ w_trace (add_msgs l w) = w_trace w /\ w_left (add_msgs l w) = w_left w
+  /\ w_msgs (add_msgs l w) = w_msgs w ++ l /\ w_cmd (add_msgs l w) = w_cmd w /\ w_sep (add_msgs l w) = w_sep w
+  /\ w_aio (add_msgs l w) = w_aio w /\ w_genfile (add_msgs l w) = w_genfile w /\ w_dir (add_msgs l w) = w_dir w
+  /\ w_fd (add_msgs l w) = w_fd w.
+Proof.
+  induction l as [|n l IH]; intros w; cbn [add_msgs fold_left].
+  - rewrite app_nil_r. auto 12.
+  - destruct (IH (log_name n w)) as (a1&a2&a3&a4&a5&a6&a7&a8&a9&a10). unfold add_msgs in *.
+    rewrite a1, a2, a3, a4, a5, a6, a7, a8, a9, a10. cbn. rewrite <- app_assoc. auto 12.
+Qed.
+Lemma main_loop2_spec l : forall w, main_loop2 re_match l w = main_after2 re_match (add_msgs l w).
+Proof. induction l as [|n l IH]; intros w; cbn [main_loop2 add_msgs fold_left]; [reflexivity|apply IH]. Qed.
+
+(* ---- THE RUN.  From the directory [init], with the source map [srcs] in the order Go iterates it, the random
+   suffixes [rnds], and the oracle [k]: the calls issued are the model's plan, resp. [faulted plan k] *)
+Definition world0 (k : option nat) (rnds : list string) (cmd : string) (sep : bool) (aio genfile d : string) (fd : nat)
+           (srcs : list (string * list bytes)) : pworld :=
+  mkPW init [] k rnds false cmd sep aio genfile d fd [] srcs.
+
+Definition is_empty {A} (l : list A) : bool := match l with [] => true | _ => false end.
+
+Theorem run_is_frun_of_plan : forall k rnds cmd sep aio genfile d fd srcs dd tags cov,
+  keys_nodup (dir init) ->
+  let w0 := world0 k rnds cmd sep aio genfile d fd srcs in
+  let outs := outs_of srcs rnds in
+  (* Clean is reached unless nothing was generated; it acts unless -sep or there is no all-in-one file *)
+  let c := cfg_of w0 (negb (is_empty srcs) && (negb sep && negb (aio =? ""))) dd tags cov in
+  exists r w', main re_match w0 = (r, w')
+    /\ w_trace w' = fst (frun (plan c init outs) k)
+    /\ w_fs w' = exec init (w_trace w')
+    /\ (if snd (frun (plan c init outs) k) then fatal r
+        else r = Returned tt /\ w_msgs w' = map fst srcs).
+Proof.
+  intros k rnds cmd sep aio genfile d fd srcs dd tags cov K w0 outs c.
+  unfold main, generated. cbn [w0 world0 w_srcs]. fold w0.
+  destruct (loop1_spec srcs srcs [] w0) as (w1 & x & A & M). cbn [w0 world0 w_fd w_rnds] in A. fold w0 outs in A.
+  assert (R0 : Run w0) by reflexivity.
+  unfold frun, plan. change (c_fd c) with fd.
+  destruct A as (A & RA). cbn [w0 world0 w_left w_trace] in A. rewrite frun0_app, A.
+  destruct x as [y|].
+  - (* a call of the write loop fails *)
+    destruct M as (r & w' & E & F & T & RR). exists r, w'. split; [exact E|]. cbn [fst snd].
+    split; [exact T|]. split; [exact (RR (RA R0))|exact F].
+  - destruct M as (E & C1). rewrite E. cbn [app]. unfold main_after1.
+    pose proof (frun0_ok_trace _ _ _ _ _ A) as T1. cbn [app] in T1.
+    pose proof (RA R0) as R1. unfold Run in R1. rewrite T1 in R1.
+    destruct srcs as [|s0 srcs'].
+    + (* nothing generated: the warning, no Clean *)
+      cbn [List.length Z.of_nat Z.eqb]. cbv beta iota zeta delta [log_nothing].
+      exists (Returned tt), w1. split; [reflexivity|].
+      unfold clean_ops, c, cfg_of. cbn [c_clean is_empty negb andb frun0 fst snd]. cbn in T1.
+      split; [reflexivity|]. split; [rewrite T1; cbn in R1; exact R1|]. split; [reflexivity|].
+      destruct C1 as (_&_&_&_&_&_&m&_). exact m.
+    + replace (Z.of_nat (List.length (s0 :: srcs')) =? 0)%Z with false
+        by (symmetry; apply Z.eqb_neq; cbn [List.length]; lia).
+      cbv beta iota zeta delta [log_nothing]. rewrite main_loop2_spec. unfold main_after2.
+      set (names := map fst (s0 :: srcs')).
+      destruct (add_msgs_keeps names w1) as (b1&b2&b3&b4&b5&b6&b7&b8&b9&b10).
+      set (w2 := add_msgs names w1) in *.
+      assert (K2 : keys_nodup (dir (w_fs w2))) by (rewrite b1, R1; apply exec_keys; exact K).
+      destruct (Clean_spec w2 dd tags cov K2) as (e & w3 & x3 & E3 & (A3 & RA3) & X3 & C3). rewrite E3.
+      assert (Cc : cfg_of w2 (negb (w_sep w2) && negb (w_aio w2 =? "")) dd tags cov = c).
+      { unfold c, cfg_of. cbn [is_empty negb andb]. destruct C1 as (c1&c2&c3&c4&c5&c6&_).
+        rewrite b5, b6, b7, b8, b10, c1, c2, c3, c4, c6. reflexivity. }
+      rewrite Cc, b1, R1, b2, b3 in A3. rewrite A3.
+      assert (R3 : Run w3) by (apply RA3; unfold Run; rewrite b1, b2; exact (RA R0)).
+      destruct x3 as [y|]; cbn [fst snd].
+      * (* a call of Clean fails: its error reaches logx.Fatal *)
+        assert (e <> None) by (intros H; apply X3 in H; discriminate).
+        destruct e as [code|]; [|contradiction]. cbv beta iota zeta delta [is_nil negb].
+        eexists _, w3. split; [reflexivity|].
+        assert (Ry : recover y (w_trace w3) = []).
+        { pose proof (frun0_fail_in _ _ _ _ _ _ A3) as I. pose proof (clean_ops_ru c (exec init (write_ops fd outs))) as RU.
+          rewrite forallb_forall in RU. specialize (RU _ I). destruct y; try discriminate; reflexivity. }
+        rewrite Ry, app_nil_r. split; [reflexivity|]. split; [exact R3|eexists; reflexivity].
+      * assert (e = None) as -> by (apply X3; reflexivity). cbv beta iota zeta delta [is_nil negb].
+        exists (Returned tt), w3. split; [reflexivity|]. split; [reflexivity|]. split; [exact R3|]. split; [reflexivity|].
+        destruct C3 as (_&_&_&_&_&_&m&_). rewrite m, b4. destruct C1 as (_&_&_&_&_&_&m1&_). rewrite m1. reflexivity.
+Qed.
+
 End Bridge.
+
+(* ================= the statements, outside the section ================= *)
+Section Statements.
+Variable re_match : string -> string -> bool.
+Hypothesis re_aio : forall l, re_match aio_pat l = is_aio l.
+Hypothesis re_gen : forall cmd l, re_match (gen_pat cmd) l = is_gen cmd l.
+(* the generator's configuration and the run's inputs *)
+Variables (init : fs) (rnds : list string) (cmd : string) (sep : bool) (aio genfile d : string) (fd : nat)
+          (srcs : list (string * list bytes)) (dd : bool) (tags : bytes -> list string) (cov : list string).
+Hypothesis K : keys_nodup (dir init).
+
+Let outs := outs_of srcs rnds.
+Let w0 k := world0 init k rnds cmd sep aio genfile d fd srcs.
+Let c := cfg_of (w0 None) (negb (is_empty srcs) && (negb sep && negb (aio =? ""))) dd tags cov.
+Let run k := main re_match (w0 k).
+
+(* no call fails: the calls issued are exactly the model's plan, the run returns, the message lists the outputs *)
+Theorem run_is_plan :
+  exists w', run None = (Returned tt, w') /\ w_trace w' = plan c init outs /\ w_fs w' = exec init (plan c init outs)
+             /\ w_msgs w' = map fst srcs.
+Proof.
+  destruct (run_is_frun_of_plan init re_match re_aio re_gen None rnds cmd sep aio genfile d fd srcs dd tags cov K)
+    as (r & w' & E & T & F & O).
+  change (w_trace w' = fst (frun (plan c init outs) None)) in T.
+  change (if snd (frun (plan c init outs) None) then fatal r else r = Returned tt /\ w_msgs w' = map fst srcs) in O.
+  rewrite frun_no_failure in T, O. cbn [fst snd] in T, O. destruct O as (-> & M).
+  exists w'. rewrite T in F. auto.
+Qed.
+
+(* call number k fails (a call whose failure the code looks at): the calls issued are [faulted plan k] - the prefix, then
+   Close and Remove of the temporary when the failing call is a write - and the process exits through logx.Fatal(f) *)
+Theorem run_is_faulted_plan : forall k x, nth_error (plan c init outs) k = Some x -> can_fail x = true ->
+  exists r w', run (Some k) = (r, w') /\ fatal r /\ w_trace w' = faulted (plan c init outs) k
+               /\ w_fs w' = exec init (faulted (plan c init outs) k).
+Proof.
+  intros k x N C.
+  destruct (run_is_frun_of_plan init re_match re_aio re_gen (Some k) rnds cmd sep aio genfile d fd srcs dd tags cov K)
+    as (r & w' & E & T & F & O).
+  change (w_trace w' = fst (frun (plan c init outs) (Some k))) in T.
+  change (if snd (frun (plan c init outs) (Some k)) then fatal r else r = Returned tt /\ w_msgs w' = map fst srcs) in O.
+  rewrite (frun_is_faulted _ _ _ N C) in T, O. cbn [fst snd] in T, O.
+  exists r, w'. rewrite T in F. auto.
+Qed.
+
+(* the oracle points at a close(2) or beyond the last call: nothing fails *)
+Theorem run_oracle_beyond : forall k,
+  match nth_error (plan c init outs) k with Some x => can_fail x = false | None => True end ->
+  exists w', run (Some k) = (Returned tt, w') /\ w_trace w' = plan c init outs.
+Proof.
+  intros k H.
+  destruct (run_is_frun_of_plan init re_match re_aio re_gen (Some k) rnds cmd sep aio genfile d fd srcs dd tags cov K)
+    as (r & w' & E & T & F & O).
+  change (w_trace w' = fst (frun (plan c init outs) (Some k))) in T.
+  change (if snd (frun (plan c init outs) (Some k)) then fatal r else r = Returned tt /\ w_msgs w' = map fst srcs) in O.
+  rewrite (frun_close_or_beyond _ _ H) in T, O. cbn [fst snd] in T, O. destruct O as (-> & _). eauto.
+Qed.
+
+(* ---- C17 over the translated program: a crash point is a prefix of the calls the PROGRAM issues *)
+Hypothesis G : good c init outs.
+
+(* C17_atomic_at_every_crash_point *)
+Theorem C17_atomic_at_every_crash_point_src : forall w' p o,
+  run None = (Returned tt, w') -> prefix_of p (w_trace w') -> In o outs ->
+  visible (exec init p) (o_name o) = visible init (o_name o) \/ visible (exec init p) (o_name o) = Some (new_bytes o).
+Proof.
+  intros w' p o E P I. destruct run_is_plan as (w'' & E' & T & _). rewrite E in E'. inversion E'; subst w''.
+  rewrite T in P. exact (atomic c init outs G p o P I).
+Qed.
+
+(* C17_frame (confinement): names that are neither outputs, nor this run's temporaries, nor selected by Clean *)
+Theorem C17_frame_src : forall w' p n,
+  run None = (Returned tt, w') -> prefix_of p (w_trace w') ->
+  ~ In n (names outs) -> ~ In n (temps outs) -> ~ In n (victims c (exec init (write_ops (c_fd c) outs))) ->
+  lookup n (dir (exec init p)) = lookup n (dir init) /\ visible (exec init p) n = visible init n.
+Proof.
+  intros w' p n E P. destruct run_is_plan as (w'' & E' & T & _). rewrite E in E'. inversion E'; subst w''.
+  rewrite T in P. exact (frame c init outs G p n P).
+Qed.
+
+(* C17_only_outputs_and_temps_appear: the program creates nothing under any other name *)
+Theorem C17_only_outputs_and_temps_appear_src : forall w' p n,
+  run None = (Returned tt, w') -> prefix_of p (w_trace w') ->
+  lookup n (dir (exec init p)) <> None -> lookup n (dir init) = None -> In n (names outs) \/ In n (temps outs).
+Proof.
+  intros w' p n E P. destruct run_is_plan as (w'' & E' & T & _). rewrite E in E'. inversion E'; subst w''.
+  rewrite T in P. exact (new_names_are_outputs_or_temps c init outs G p n P).
+Qed.
+
+(* C17_files_without_the_header_are_never_removed *)
+Theorem C17_files_without_the_header_are_never_removed_src : forall w' p n b,
+  run None = (Returned tt, w') -> prefix_of p (w_trace w') -> ~ In n (names outs) ->
+  visible init n = Some b -> is_gen (c_cmd c) (first_line b) = false ->
+  lookup n (dir (exec init p)) = lookup n (dir init) /\ visible (exec init p) n = Some b.
+Proof.
+  intros w' p n b E P Hn V Hg. destruct run_is_plan as (w'' & E' & T & _). rewrite E in E'. inversion E'; subst w''.
+  rewrite T in P.
+  destruct (not_selected_untouched c init outs p n G P Hn) as [L V'].
+  - unfold visible in V. destruct (lookup n (dir init)); congruence.
+  - exact (hand_written_not_selected c init n b V Hg).
+  - split; [exact L|congruence].
+Qed.
+
+(* C17_after_a_failing_call: the state the PROGRAM leaves when call k fails *)
+Theorem C17_after_a_failing_call_src : forall k x r w',
+  nth_error (plan c init outs) k = Some x -> can_fail x = true -> run (Some k) = (r, w') ->
+  let s := w_fs w' in
+  fatal r /\
+  (forall o, In o outs -> visible s (o_name o) = visible init (o_name o) \/ visible s (o_name o) = Some (new_bytes o)) /\
+  (forall n, ~ In n (names outs) -> ~ In n (temps outs) -> ~ In n (victims c (exec init (write_ops (c_fd c) outs))) ->
+     lookup n (dir s) = lookup n (dir init) /\ visible s n = visible init n) /\
+  (forall j, j < next init -> data s j = data init j).
+Proof.
+  intros k x r w' N C E. destruct (run_is_faulted_plan k x N C) as (r' & w'' & E' & F & T & S).
+  rewrite E in E'. inversion E'; subst r' w''. cbn zeta. rewrite S.
+  destruct (faulted_invariants c init outs G k) as (A & B & _ & D). auto.
+Qed.
+
+(* C17_no_temp_left_unless_the_rename_failed *)
+Theorem C17_no_temp_left_unless_the_rename_failed_src : forall k x t r w',
+  nth_error (plan c init outs) k = Some x -> can_fail x = true -> is_rename x = false -> run (Some k) = (r, w') ->
+  In t (temps outs) -> lookup t (dir (w_fs w')) = None.
+Proof.
+  intros k x t r w' N C R E I. destruct (run_is_faulted_plan k x N C) as (r' & w'' & E' & F & T & S).
+  rewrite E in E'. inversion E'; subst r' w''. rewrite S. exact (faulted_no_temp_left c init outs G k x t N C R I).
+Qed.
+
+(* ---- C18_partial_write_is_a_prefix, for the program: whatever call fails (or none), the outputs already renamed into
+   place are a PREFIX of the outputs in the order Go iterates the source map; all of them when the run returns *)
+Definition renamed (t : list op) : list name :=
+  flat_map (fun o => match o with Rename _ b => [b] | _ => [] end) t.
+
+Lemma renamed_app a b : renamed (a ++ b) = renamed a ++ renamed b.
+Proof. unfold renamed. apply flat_map_app. Qed.
+Lemma renamed_none t : forallb (fun o => negb (is_rename o)) t = true -> renamed t = [].
+Proof.
+  induction t as [|o t IH]; [reflexivity|]. cbn [forallb]. intros H. apply andb_true_iff in H as (H1 & H2).
+  unfold renamed in *. cbn [flat_map]. rewrite (IH H2), app_nil_r. destruct o; try reflexivity; discriminate.
+Qed.
+Lemma norename_prefix (q l : list op) :
+  prefix_of q l -> forallb (fun o => negb (is_rename o)) l = true -> forallb (fun o => negb (is_rename o)) q = true.
+Proof. intros (r & ->) H. rewrite forallb_app in H. now apply andb_true_iff in H as (H & _). Qed.
+Lemma pre_ops_norename h o : forallb (fun o => negb (is_rename o)) (pre_ops h o) = true.
+Proof.
+  unfold pre_ops. cbn [forallb is_rename negb andb]. rewrite forallb_app. cbn. rewrite andb_true_r.
+  induction (o_chunks o) as [|b l IH]; [reflexivity|exact IH].
+Qed.
+Lemma renamed_write_ops h done : renamed (write_ops h done) = names done.
+Proof.
+  induction done as [|o r IH]; [reflexivity|]. rewrite write_ops_cons, renamed_app, IH, note_down_split, renamed_app.
+  rewrite (renamed_none _ (pre_ops_norename h o)). reflexivity.
+Qed.
+Lemma ru_norename l : forallb ru l = true -> forallb (fun o => negb (is_rename o)) l = true.
+Proof.
+  induction l as [|o l IH]; [reflexivity|]. cbn [forallb]. intros H. apply andb_true_iff in H as (H1 & H2).
+  rewrite (IH H2), andb_true_r. destruct o; try reflexivity; discriminate.
+Qed.
+
+Lemma renamed_prefix_of_plan p : prefix_of p (plan c init outs) ->
+  exists j, renamed p = firstn j (names outs) /\ (p = plan c init outs -> j = List.length outs).
+Proof.
+  intros P. unfold plan in *. apply prefix_of_app in P as [P|(q & -> & Q)].
+  - destruct (prefix_write _ _ _ P) as (done & rest & q & E & -> & Hq).
+    exists (List.length done). rewrite renamed_app, renamed_write_ops.
+    assert (Nq : renamed q = []).
+    { destruct Hq as [->|(o & rest' & _ & Hq)]; [reflexivity|].
+      apply renamed_none. exact (norename_prefix _ _ Hq (pre_ops_norename _ o)). }
+    rewrite Nq, app_nil_r. split.
+    + rewrite E. unfold names. rewrite map_app, <- (map_length o_name done), firstn_app, firstn_all, Nat.sub_diag. cbn.
+      now rewrite app_nil_r.
+    + intros Ep. apply (f_equal (@List.length op)) in Ep. rewrite !app_length in Ep.
+      assert (Lq : List.length q <= List.length (write_ops (c_fd c) rest)).
+      { destruct Hq as [->|(o & rest' & -> & (r & Hr))]; [cbn; lia|].
+        rewrite write_ops_cons, note_down_split, Hr, !app_length. lia. }
+      rewrite E, write_ops_app, app_length in Ep.
+      assert (rest = []) as ->.
+      { destruct Hq as [->|(o & rest' & -> & (r & Hr))].
+        - destruct rest as [|o rest']; [reflexivity|]. rewrite write_ops_cons, note_down_split, !app_length in Ep. cbn in Ep. lia.
+        - rewrite write_ops_cons, note_down_split, Hr, !app_length in Ep. cbn in Ep. lia. }
+      rewrite E, app_nil_r. reflexivity.
+  - exists (List.length outs). rewrite renamed_app, renamed_write_ops.
+    rewrite (renamed_none q (norename_prefix _ _ Q (ru_norename _ (clean_ops_ru c _)))), app_nil_r.
+    unfold names. rewrite <- (map_length o_name outs), firstn_all. auto.
+Qed.
+
+Theorem C18_partial_write_is_a_prefix_src : forall k,
+  exists r w' j, run k = (r, w') /\ renamed (w_trace w') = firstn j (map fst srcs)
+                 /\ (r = Returned tt -> j = List.length srcs) /\ (r = Returned tt \/ fatal r).
+Proof.
+  intros k.
+  destruct (run_is_frun_of_plan init re_match re_aio re_gen k rnds cmd sep aio genfile d fd srcs dd tags cov K)
+    as (r & w' & E & T & F & O).
+  change (w_trace w' = fst (frun (plan c init outs) k)) in T.
+  change (if snd (frun (plan c init outs) k) then fatal r else r = Returned tt /\ w_msgs w' = map fst srcs) in O.
+  assert (Nm : names outs = map fst srcs).
+  { unfold outs, names. clear. revert rnds. induction srcs as [|[n cs] l IH]; intros rnds; [reflexivity|].
+    cbn [outs_of map o_name out_of fst]. now rewrite IH. }
+  assert (Ln : List.length outs = List.length srcs) by (rewrite <- (map_length o_name outs); fold (names outs); rewrite Nm; apply map_length).
+  unfold frun in T, O. destruct (frun0 (plan c init outs) k []) as [[t k'] [y|]] eqn:FR; cbn [fst snd] in T, O.
+  - (* a call failed: the prefix issued, then at most Close + Unlink *)
+    assert (P : prefix_of t (plan c init outs)).
+    { destruct k as [k|]; [|rewrite frun0_none in FR; discriminate]. rewrite frun0_some in FR.
+      destruct (nth_error (plan c init outs) k) as [x|]; [destruct (can_fail x)|]; inversion FR. cbn. apply prefix_of_firstn. }
+    destruct (renamed_prefix_of_plan t P) as (j & Rj & _).
+    exists r, w', j. split; [exact E|]. split.
+    + rewrite T, renamed_app, Rj, Nm.
+      assert (renamed (recover y t) = []) as ->.
+      { destruct y; cbn [recover]; try reflexivity. destruct (last_temp h t); reflexivity. }
+      now rewrite app_nil_r.
+    + split; [|right; exact O]. intros ->. destruct O as (fmt & O). discriminate.
+  - destruct O as (-> & _). pose proof (frun0_ok_trace _ _ _ _ _ FR) as Tt. cbn in Tt. rewrite Tt in T.
+    destruct (renamed_prefix_of_plan _ (prefix_of_refl _)) as (j & Rj & Jj).
+    exists (Returned tt), w', j. split; [exact E|]. split; [rewrite T, Rj, Nm; reflexivity|].
+    split; [intros _; rewrite <- Ln; apply Jj; reflexivity|now left].
+Qed.
+
+End Statements.
+
+Print Assumptions run_is_frun_of_plan.
+Print Assumptions run_is_plan.
+Print Assumptions run_is_faulted_plan.
+Print Assumptions run_oracle_beyond.
+Print Assumptions C17_atomic_at_every_crash_point_src.
+Print Assumptions C17_frame_src.
+Print Assumptions C17_only_outputs_and_temps_appear_src.
+Print Assumptions C17_files_without_the_header_are_never_removed_src.
+Print Assumptions C17_after_a_failing_call_src.
+Print Assumptions C17_no_temp_left_unless_the_rename_failed_src.
+Print Assumptions C18_partial_write_is_a_prefix_src.
